@@ -35,6 +35,7 @@ type clusterLink struct {
 	sendErr error
 	mu      sync.Mutex
 	runID   string
+	prevID  string // the source's second replication id (the history it failed over from), "" if none
 	cpName  string
 }
 
@@ -67,7 +68,11 @@ func (l *clusterLink) start() {
 	l.spErr, l.sendErr, l.phase = nil, nil, 0
 	l.mu.Unlock()
 	go func() {
-		sp, err := l.ro.StartPoint(l.ctx, []string{l.runID})
+		ids := []string{l.runID}
+		if l.prevID != "" {
+			ids = append(ids, l.prevID)
+		}
+		sp, err := l.ro.StartPoint(l.ctx, ids)
 		if err != nil {
 			l.mu.Lock()
 			l.spErr, l.phase = err, 2
